@@ -33,7 +33,9 @@ def save_baseline(data):
 
 def lost_coverage(prop, obligations, baseline):
     base = baseline.get(prop, {})
-    return [name for name in base if name not in obligations]
+    # `ensures:no-raise` exists only while the executor finds a raising path to refute; a function without any
+    # raising path has nothing to lose there
+    return [name for name in base if name not in obligations and not name.endswith("/ensures:no-raise")]
 
 
 def write(prop, tier, seed, results, obligations, discharged, known_hits, violations, undecided, oor, wall):
